@@ -303,14 +303,19 @@ def run(tier, seed):
     tb = observed_orders(cases, impl)
     table_ok, table_info = check_table(tb)
     bad = [i for i, c in enumerate(cases) if proj_kinds(c, impl[i]) != proj_kinds(c, model[i])]
+    # compile-time half: the type states of the builder against rustc (C14_no_at_least_on_ordered, C14_then_needs_exact)
+    from .. import rustc_sweep as R
+    progs, mv, rv = R.sweep()
+    type_bad = [k for k in range(len(progs)) if mv[k] != rv[k]]
     distinct = {canon({"t": c["tree"], "e": c["events"], "p": c["partial"]}): c for c in cases}
     nt = sum(1 for c in distinct.values() if depth(c["tree"]) >= 2 or c["_kind"].startswith("reject"))
     dist = collections.Counter(c["_kind"] if not c["_kind"].startswith("flat") else "flat" for c in cases)
     dist.update({"depth=%d" % depth(c["tree"]): 1 for c in cases})
-    n_obl = len(obligations) + 2
+    n_obl = len(obligations) + 3
     cov = {
         "obligations": n_obl,
-        "discharged": len(obligations) + (1 if table_ok else 0) + (0 if bad else 1),
+        "discharged": len(obligations) + (1 if table_ok else 0) + (0 if bad else 1) + (0 if type_bad else 1),
+        "builder_programs_checked_against_rustc": len(progs),
         "checker_cmd": f"make -C /verif/coq ; coqc TupleOrderCheck.v (regenerated) ; ./check C14 --tier {tier}",
         "trusted_base": C.TRUSTED_BASE + ["rustc type-checks the generated tuple expressions (harness/tuples/src/gen.rs)"],
         "theorems": obligations + [{"theorem": "TupleOrderCheck.observed_ok + flatten_observed (regenerated from the real impls of arity 2..16)",
@@ -321,6 +326,16 @@ def run(tier, seed):
         "samples": [{"tree": rust_tree(c["tree"])[:600], "events": [K.event_tok(e) for e in c["events"]]} for c in cases[15:18]],
         "distribution": dict(dist),
     }
+    if type_bad and not bad and table_ok:
+        k = type_bad[0]
+        payload = {"property": "C14", "seed": seed, "part": "types",
+                   "theorem_or_correspondence": "type-state correspondence: Model/Builder.v bstep/build_call vs rustc (compile-time rejection of at_least_times on ordered chains / then() after a non-exact count)",
+                   "program": R.describe(progs[k]), "model_says_well_typed": mv[k], "rustc_accepts": rv[k],
+                   "case": {"prog": progs[k]}, "disagreements": len(type_bad)}
+        path = C.write_replay("C14", seed, payload)
+        C.write_evidence("C14", tier, seed, cov, time.time() - t0, 1)
+        C.violation("C14", path)
+        return 1
     if bad or not table_ok:
         if bad:
             i = bad[0]
@@ -365,6 +380,14 @@ def replay(path):
     if case is None:
         print("replay file names an obligation, not an input:", payload.get("theorem_or_correspondence"))
         return 1
+    if payload.get("part") == "types":
+        from .. import rustc_sweep as R
+        prog = case["prog"]; prog = (prog[0], prog[1], list(prog[2]), prog[3])
+        mv, rv = R.model_verdicts([prog]), R.rustc_verdicts([prog])
+        print("program:", R.describe(prog), "model:", mv[0], "rustc:", rv[0])
+        if mv[0] != rv[0]:
+            C.violation("C14", path); return 1
+        print("agree"); return 0
     ci, cm = both([case])
     print("clause :", rust_tree(case["tree"]))
     print("model  :", cm[0])
